@@ -208,6 +208,25 @@ fn identifier_sources_inner(started: bool, epmd_creation: Option<u32>, ctx: &cra
     })
 }
 
+/// References across the 32-bit boundary of their counter: placed just below it (and at 2^31), the next 4 000 references are
+/// pairwise distinct (each differs from all earlier ones in at least one word).
+fn reference_wrap_exec(start: &u32, _ctx: &crate::explore::WorkerCtx) -> crate::explore::ExecResult {
+    let start = *start;
+    let mut res = crate::explore::ExecResult::default();
+    let node = Node::new("me@127.0.0.1", "c");
+    node.reference_counter_verif().store(start, std::sync::atomic::Ordering::SeqCst);
+    let mut seen: HashSet<Vec<u32>> = HashSet::new();
+    let mut first_dup: Option<(usize, Vec<u32>)> = None;
+    for i in 0..4000usize {
+        let r = node.make_reference();
+        if !seen.insert(r.ids.clone()) && first_dup.is_none() { first_dup = Some((i, r.ids.clone())); }
+    }
+    if let Some((i, ids)) = first_dup { res.violations.push(("references made by one node are not pairwise distinct".into(), json!({"counter_placed_at": start, "first_repeated_reference_number": i, "its_words": ids}))); }
+    res.steps = 4000;
+    res.outcome = format!("reference wrap {}", start);
+    res
+}
+
 pub fn run(rep: &Report) -> Value {
     // (node started?, creation EPMD assigns, identifiers made before start)
     // (node started?, creation EPMD assigns, identifiers made before start, EPMD replies cut after that many bytes)
@@ -217,9 +236,11 @@ pub fn run(rep: &Report) -> Value {
     src.push((true, Some(0x1_0001), false, Some(100)));
     src.push((true, Some(2), false, Some(100)));
     let st_src = crate::explore::for_all(rep, "all sources of process identifiers", &src, |k, ctx| identifier_sources_exec(k, ctx));
+    let starts = [u32::MAX - 5, u32::MAX - 3000, (1u32 << 31) - 7, 0];
+    let st_rw = crate::explore::for_all(rep, "references across the wrap of their 32-bit counter", &starts, |k, ctx| reference_wrap_exec(k, ctx));
     let ks: Vec<usize> = (0..=6).collect();
     let st_u = crate::explore::for_all(rep, "references around failing unlinks", &ks, |k, ctx| failing_unlinks_exec(k, ctx));
-    let mut total = st_u.executions + st_src.executions;
+    let mut total = st_u.executions + st_src.executions + st_rw.executions;
     let mut outcomes: HashSet<String> = HashSet::new();
     for threads in [2usize, 3] {
         for sched in schedules(threads, 3) {
